@@ -12,7 +12,11 @@ import (
 
 // ---- (a) the probe cursor against the model ----
 
-func c03Cursor(r *rng, id string) {
+func c03Cursor(r *rng, id string) { cursorLeg("C03", r, id) }
+
+// cursorLeg: the probe schedule tick by tick against the cursor model (also run under C05: re-convergence rests on
+// suspected members still being probed).
+func cursorLeg(prop string, r *rng, id string) {
 	n, err := newC19(0, "off", 8)
 	if err != nil {
 		return
@@ -31,7 +35,7 @@ func c03Cursor(r *rng, id string) {
 		return fmt.Sprintf("%s@%d", strings.Join(parts, ","), s.ProbeIndex)
 	}
 	var sb strings.Builder
-	fmt.Fprintf(&sb, "C03 cursor id=%s init=%s ops=", id, snap())
+	fmt.Fprintf(&sb, "%s cursor id=%s init=%s ops=", prop, id, snap())
 	next := 0
 	steps := 5 + r.intn(40)
 	for i := 0; i < steps; i++ {
@@ -49,11 +53,16 @@ func c03Cursor(r *rng, id string) {
 			synctest.Wait()
 			pk, to := n.tr.takeTo()
 			target := "-"
-			if len(pk) > 0 && len(pk[0]) > 1 && pk[0][0] == 0 {
-				target = addrOf[to[0]]
-				if seq, _, ok := ml.VerifDecodePing(pk[0][1:]); ok {
-					ack, _ := ml.VerifEncode(2, seq, "", nil)
-					ml.VerifIngestPacket(m, ack, fromAddr, time.Now())
+			// (a suspected member gets its ping together with the accusation, in one compound packet)
+			for i, p := range pk {
+				for _, part := range simParts(p) {
+					if len(part) > 1 && part[0] == 0 && target == "-" {
+						target = addrOf[to[i]]
+						if seq, _, ok := ml.VerifDecodePing(part[1:]); ok {
+							ack, _ := ml.VerifEncode(2, seq, "", nil)
+							ml.VerifIngestPacket(m, ack, fromAddr, time.Now())
+						}
+					}
 				}
 			}
 			<-done
@@ -68,6 +77,17 @@ func c03Cursor(r *rng, id string) {
 			fmt.Fprintf(&sb, "A:%s>%s", name, snap())
 		case k < 9 && next > 0:
 			name := fmt.Sprintf("m%d", r.intn(next))
+			if r.chance(1, 3) {
+				// a suspected member is still a member: the schedule keeps visiting it (that is how the
+				// accusation reaches it and the refutation comes back)
+				for _, nd := range ml.VerifSnapshotState(m).Nodes {
+					if nd.Name == name {
+						ml.VerifSuspectNode(m, nd.Incarnation, name, "x")
+					}
+				}
+				fmt.Fprintf(&sb, "S:%s>%s", name, snap())
+				continue
+			}
 			from := []string{"x", name}[r.intn(2)]
 			ml.VerifDeadNode(m, 1, name, from)
 			if r.chance(1, 2) {
